@@ -74,4 +74,54 @@ def main(tier):
         shutil.rmtree(evdir, ignore_errors=True)
     print("sensitivity: %d seeded changes, %d not caught, %.0fs"
           % (len(names), len(missed), time.time() - t0))
-    return 1 if missed else 0
+    alarms = negative_controls(tier)
+    return 1 if missed or alarms else 0
+
+
+def negative_controls(tier):
+    """Behaviour-preserving refactorings (/verif/controls): every check must
+    stay silent on them."""
+    base = os.path.join(HERE, "controls")
+    if not os.path.isdir(base):
+        return 0
+    names = sorted(os.listdir(base))
+    props = ["C01", "C02", "C03", "C04", "C05", "C06", "C07", "C08", "C10",
+             "C11", "C12", "C13", "C14", "C15", "C16"]
+    if tier == "quick":
+        names = names[::6]
+        props = ["C04", "C06", "C12", "C13", "C15", "C16"]
+    wt = tempfile.mkdtemp(prefix="tfsim-ctl-")
+    os.rmdir(wt)
+    if sh("git -C /repo worktree add -q --detach %s HEAD" % wt).returncode:
+        print("HARNESS-ERROR cannot create worktree")
+        return 1
+    evdir = tempfile.mkdtemp(prefix="tfsim-ctl-ev-")
+    alarms = 0
+    try:
+        for name in names:
+            d = os.path.join(base, name)
+            sh("git -C %s checkout -- ." % wt)
+            if sh("git -C %s apply %s/patch.diff" % (wt, d)).returncode:
+                print("control %s: patch does not apply (skipped)" % name)
+                continue
+            loud = []
+            for p in props:
+                env = dict(os.environ, VERIF_REPO=wt,
+                           VERIF_EVIDENCE_DIR=evdir, VERIF_RUNS_DIV="2")
+                c = subprocess.run(
+                    [sys.executable, "-m", "tfsim.cli", "check",
+                     "--property", p, "--tier", "quick"],
+                    cwd=HERE, env=env, capture_output=True, text=True,
+                    timeout=1800)
+                if c.returncode != 0:
+                    loud.append((p, c.returncode))
+            print("control %s: %s" % (name, "silent" if not loud else
+                                      "ALARM %r" % (loud,)))
+            sys.stdout.flush()
+            alarms += len(loud)
+    finally:
+        sh("git -C /repo worktree remove --force %s" % wt)
+        shutil.rmtree(evdir, ignore_errors=True)
+    print("negative controls: %d refactorings, %d alarms" % (len(names),
+                                                            alarms))
+    return alarms
